@@ -80,7 +80,7 @@ class LPTap:
         ev = {'ordinal': ordinal, 'ncons': len(prob.constraints), 'fault': None,
               'injected': False}
         if fault is not None:
-            ev['fault'] = dict(fault)
+            ev['fault'] = {k: v for k, v in fault.items() if not k.startswith('_')}
             self._apply_fault(prob, solver, fault, kw)
         else:
             _ORIG_SOLVE(prob, solver, **kw)
